@@ -1,5 +1,5 @@
 #!/bin/bash
-# tools/regress_benign.sh <out.tsv> <slots>   — every benign (property-preserving) change against the check of its own property and the checks named in CHECKS (default: own only); every run must exit 0 unless meta.json alarms records a correct cross-detection
+# tools/regress_benign.sh <out.tsv> <slots>   — every benign (property-preserving) change against the check of its own property the checks named in CHECKS and EXTRA other checks picked per change (default: own only); every run must exit 0 unless meta.json alarms records a correct cross-detection
 #   (meta.json detected_by; for the early rounds that is the check of its own property).  Scratch worktrees and
 #   copies of /verif under /tmp, as in tools/matrix.sh.  Line: <seeded id> <check> <exit code> <VIOLATION lines>
 OUT=$1; SLOTS=$2
@@ -9,7 +9,12 @@ python3 - > $Q/queue <<'PY'
 import json,glob,os
 for d in sorted(glob.glob('/verif/benign/C*-b*')):
     m=json.load(open(d+'/meta.json'))
-    checks=sorted(set([os.path.basename(d)[:3]]+os.environ.get('CHECKS','').split()))
+    own=os.path.basename(d)[:3]
+    import hashlib, random
+    r=random.Random(hashlib.md5(os.path.basename(d).encode()).hexdigest())
+    others=[c for c in ['C%02d'%i for i in range(1,21)] if c!=own]
+    extra=r.sample(others,int(os.environ.get('EXTRA','0')))
+    checks=sorted(set([own]+extra+os.environ.get('CHECKS','').split()))
     if checks: print(os.path.basename(d), ' '.join(checks))
 PY
 : > $OUT
